@@ -127,6 +127,7 @@ func (c *Ctx) Sample(v any) {
 
 // Inconclusive records that the case could not be decided.
 func (c *Ctx) Inconclusive(msg string) {
+	msg = fmt.Sprintf("case %d: %s", c.Case, msg)
 	c.res.Inconclusive = append(c.res.Inconclusive, msg)
 	if c.Verbose {
 		fmt.Println("inconclusive:", msg)
